@@ -68,7 +68,7 @@ var pinned = []pinnedCase{
 	{kind: "number", s: "-00"},                                         // RECON: +0 instead of −0
 	{kind: "literal", s: "9007199254740993"},
 	{kind: "number", s: "0x10000000000000000"},
-	{kind: "literal", s: "0x20000000000000180000000000000001"},
+	{kind: "literal", s: "0xb018a2489406a492018a2"}, // float accumulation in the lexer misrounds
 	{kind: "literal", s: "0b" + "11111111111111111111111111111111111111111111111111111111111111111"},
 	{kind: "number", s: "\u00855"},
 	{kind: "number", s: "0x-1"},
@@ -80,6 +80,16 @@ var pinned = []pinnedCase{
 	{kind: "str", x: 1e21},
 	{kind: "radix", x: 0.1, arg: 3},
 	{kind: "radix", x: -255.5, arg: 16},
+	{kind: "radix", x: -0.5, arg: 2},   // found: sign of a negative fraction lost
+	{kind: "prec", x: -99.5, arg: 1},   // found: carry through all digits overwrites the sign
+	{kind: "exp", x: -9.96e-7, arg: 1}, // same, toExponential
+	{kind: "number", s: "0x+1"},        // found: sign after the radix prefix accepted
+	{kind: "number", s: "0b" + "1000000000000000000000000000000000000000000000000000000000000000"}, // 2^63 as binary text
+	{kind: "literal", s: "0o2000000000000000000000"},                                               // 2^66 octal literal: SyntaxError
+	{kind: "number", s: "-000"},
+	{kind: "parseInt", s: "-00", radix: 16},
+	{kind: "parseInt", s: "zzzzzzzzzzzzzzzzzzzzzzzz", radix: 36},
+	{kind: "hang", x: 9.99999999e-315, arg: 0}, // found: toFixed on this subnormal does not terminate (run only once the fix is merged)
 }
 
 func Check() *core.Check {
@@ -98,9 +108,9 @@ func Check() *core.Check {
 		},
 		Cases: func(tier string) int {
 			if tier == "thorough" {
-				return 700000
+				return 130000
 			}
-			return 13000
+			return 11000
 		},
 		MinConclusive: func(tier string) int { return 500 },
 		NumPinned:     len(pinned),
@@ -112,19 +122,23 @@ func Check() *core.Check {
 // ---- known findings / exclusions ---------------------------------------------------------------------------------------
 
 var (
-	findOnce sync.Once
-	listed   map[string]bool // finding IDs currently listed for C12
-	knownSig map[string]bool
+	findOnce   sync.Once
+	listed     map[string]bool // finding IDs currently listed
+	listedBase map[string]bool // the same without the "/n" witness suffix
+	knownSig   map[string]bool
 )
 
 func loadFindings() {
 	findOnce.Do(func() {
 		listed = map[string]bool{}
+		listedBase = map[string]bool{}
 		knownSig = map[string]bool{}
 		ff := core.LoadFindings()
 		for _, f := range ff.Findings {
+			listed[f.ID] = true
+			base, _, _ := strings.Cut(f.ID, "/")
+			listedBase[base] = true
 			if f.Property == "C12" {
-				listed[f.ID] = true
 				knownSig[f.Signature] = true
 			}
 		}
@@ -239,7 +253,16 @@ func (b *batch) report(monitor string, w witness) {
 		fmt.Sscanf(w.Bits, "%x", &u)
 		w.Value = showNum(math.Float64frombits(u))
 	}
-	sig := monitor + "|" + w.Kind + "|" + w.Op + "|" + w.Arg + "|" + w.Via + "|" + w.Bits + w.Input
+	// the signature names the input and the conversion, not the route by which goja was called
+	opc := w.Op
+	if opc == "unary+" {
+		opc = "Number"
+	}
+	mon := monitor
+	if strings.HasPrefix(mon, "value-") {
+		mon = "value"
+	}
+	sig := mon + "|" + w.Kind + "|" + opc + "|" + w.Arg + "|" + w.Bits + w.Input
 	b.viols = append(b.viols, viol{monitor, sig, w})
 }
 
@@ -328,6 +351,9 @@ func (b *batch) oneDouble(d dbl, sweep bool) {
 	r := b.c.Rng
 	st := b.st
 	x := d.x
+	if b.skipDouble(x) {
+		return
+	}
 	st.Inc("family:" + d.fam)
 	finite := numref.IsFinite(x)
 	if !(finite && numref.IsInteger(x) && math.Abs(x) < 1<<53) {
@@ -445,6 +471,9 @@ func (b *batch) oneDouble(d dbl, sweep bool) {
 	for _, a := range sigArgs {
 		wantP, halfP := numref.ToPrecision(x, a)
 		wantE, halfE := numref.ToExponential(x, a-1)
+		if b.skipSig(x, wantE) {
+			continue
+		}
 		judge := true
 		if finite && x != 0 && !halfP {
 			ds, e := numref.SigDigits2(x, a)
@@ -495,7 +524,7 @@ func (b *batch) oneDouble(d dbl, sweep bool) {
 		radices = []int{r.Range(2, 36), core.Pick(r, []int{2, 3, 8, 16, 32, 36, 7})}
 	}
 	for _, rd := range radices {
-		if rd == 10 {
+		if rd == 10 || b.skipRadix(x) {
 			continue
 		}
 		st.Inc(fmt.Sprintf("radix:%02d", rd))
@@ -662,7 +691,7 @@ func (b *batch) strings(items []str) {
 			v, p = b.t.call("npf", sv)
 			b.numResult("string", "parseFloat", "runtime:Number.parseFloat", s, it.fam, "", v, p, eqF, wantF)
 		}
-		if isValidLiteral(s) {
+		if isValidLiteral(s) && !b.excluded("literal", s, 0, true) {
 			lits = append(lits, it)
 		}
 		quoted = append(quoted, it)
@@ -868,7 +897,7 @@ func (b *batch) parseInts(items []pint) {
 			R = numref.ToInt32(float64(it.radix))
 		}
 		res := numref.ParseInt(numref.Units(it.s), R)
-		b.numResult("parseInt", "parseInt", "source:string-literal", it.s, "parseInt", fmt.Sprint("radix=", it.radix, " given=", it.hasRadix), got, prob, res.Accepts, res.Value)
+		b.numResult("parseInt", "parseInt", "source:string-literal", it.s, "parseInt", map[bool]string{true: "radix=" + fmt.Sprint(it.radix), false: "radix=undefined"}[it.hasRadix], got, prob, res.Accepts, res.Value)
 	})
 }
 
@@ -960,19 +989,52 @@ func run(c *core.Ctx) core.Result {
 
 func (b *batch) pinned(p pinnedCase) string {
 	b.nontr = true
+	d := dbl{x: p.x, fam: "pinned", hintFx: -1, hintSig: -1}
+	xv := b.t.r.ToValue(p.x)
+	av := b.t.r.ToValue(p.arg)
 	switch p.kind {
 	case "parseInt":
 		b.parseInts([]pint{{s: p.s, radix: p.radix, hasRadix: true}})
-	case "number", "parseFloat", "literal":
-		b.strings([]str{{s: p.s, fam: "pinned"}})
+	case "number":
+		u := numref.Units(p.s)
+		want := numref.StringToNumber(u)
+		eq := func(f float64) bool { return numref.SameValue(f, want) }
+		v, pr := b.t.call("num", b.t.r.ToValue(p.s))
+		b.numResult("string", "Number", "runtime:num(go-string)", p.s, "pinned", "", v, pr, eq, want)
+		b.runArray("[\nNumber(\""+quote(p.s)+"\")\n]", 1, func(i int, got goja.Value, prob string) {
+			b.numResult("string", "Number", "source:string-literal", p.s, "pinned", "", got, prob, eq, want)
+		})
+	case "literal":
+		want, _ := numref.LiteralValue(p.s)
+		b.runArray("[\n"+p.s+"\n]", 1, func(i int, got goja.Value, prob string) {
+			b.numResult("string", "literal", "source:numeric-literal", p.s, "pinned", "", got, prob, func(f float64) bool { return numref.SameValue(f, want) }, want)
+		})
 	case "fixed":
-		b.oneDouble(dbl{x: p.x, fam: "pinned", hintFx: p.arg, hintSig: -1}, false)
-	case "prec", "exp":
-		b.oneDouble(dbl{x: p.x, fam: "pinned", hintFx: -1, hintSig: p.arg + map[bool]int{true: 1, false: 0}[p.kind == "exp"]}, false)
+		want, _ := numref.ToFixed(p.x, p.arg)
+		v, pr := b.t.call("fx", xv, av)
+		b.checkText(d, "toFixed", "runtime:fx", p.arg, v, pr, want, false)
+	case "prec":
+		want, _ := numref.ToPrecision(p.x, p.arg)
+		v, pr := b.t.call("pr", xv, av)
+		b.checkText(d, "toPrecision", "runtime:pr", p.arg, v, pr, want, false)
+	case "exp":
+		want, _ := numref.ToExponential(p.x, p.arg)
+		v, pr := b.t.call("ex", xv, av)
+		b.checkText(d, "toExponential", "runtime:ex", p.arg, v, pr, want, false)
 	case "str":
-		b.oneDouble(dbl{x: p.x, fam: "pinned", hintFx: -1, hintSig: -1}, false)
+		v, pr := b.t.call("str", xv)
+		b.checkText(d, "String", "runtime:str", -1, v, pr, numref.ToString(p.x), true)
 	case "radix":
-		b.oneDouble(dbl{x: p.x, fam: "pinned", hintFx: -1, hintSig: -1}, true)
+		v, pr := b.t.call("rx", xv, av)
+		b.checkRadix(d, p.arg, "runtime:rx", v, pr, "")
+	case "hang":
+		if listedBase["C12-ftoa-denormal"] && !noExclude {
+			b.st.Inc("pinned_skipped:hanging-witness-while-listed")
+			break
+		}
+		want, _ := numref.ToFixed(p.x, p.arg)
+		v, pr := b.t.call("fx", xv, av)
+		b.checkText(d, "toFixed", "runtime:fx", p.arg, v, pr, want, false)
 	}
 	return "pinned:" + p.kind + ":" + p.s + hexBits(p.x) + itoa(p.arg)
 }
